@@ -764,6 +764,12 @@ func callSSA(i *Interp, caller *frame, callpos token.Pos, fn *ssa.Function, args
 			}
 		}
 		if fn.Blocks == nil {
+			// assembly kernels with a pure Go twin in the same package (math/big: addVV -> addVV_g, ...)
+			if fn.Pkg != nil {
+				if g := fn.Pkg.Func(fn.Name() + "_g"); g != nil && g.Blocks != nil && types.Identical(g.Signature, fn.Signature) {
+					return callSSA(i, caller, callpos, g, args, nil)
+				}
+			}
 			panic(unsupported("no code for function %s (called from %s)", name, caller.where()))
 		}
 	}
